@@ -75,7 +75,7 @@ theorem len_stmt : ∀ (s : SStmt) (sfx : String) (off : Nat), (compileStmt sfx 
     (try omega)
   | .doLoop c top u body p, sfx, off => by
     cases top <;> cases u <;>
-      simp [compileStmt, sizeStmt, isZero, len_stmt body] <;> try omega
+      simp [compileStmt, sizeStmt, len_stmt body] <;> try omega
   | .end_ _, _, _ => by simp [compileStmt, sizeStmt]
 theorem len_elifs : ∀ (e : ElseIfs) (sfx : String) (p : Pos) (endOff elseOff off i : Nat),
     (compileElifs sfx p endOff elseOff off i e).length = sizeElifs e
